@@ -20,6 +20,21 @@ def seed():
         return 0
 
 
+def tree_under_test():
+    """Which tree the check ran against: path, HEAD commit and whether the working tree had uncommitted changes."""
+    repo = os.environ.get("EFMC_REPO", "/repo")
+    out = {"path": repo}
+    try:
+        out["head"] = subprocess.run(["git", "-C", repo, "rev-parse", "--short", "HEAD"], capture_output=True,
+                                     text=True, timeout=20).stdout.strip()
+        out["uncommitted_changes"] = bool(subprocess.run(
+            ["git", "-C", repo, "status", "--porcelain", "--untracked-files=no"], capture_output=True, text=True,
+            timeout=20).stdout.strip())
+    except Exception as e:  # noqa
+        out["head"] = f"unknown ({type(e).__name__})"
+    return out
+
+
 def jsonable(x):
     if isinstance(x, dict):
         return {str(k): jsonable(v) for k, v in x.items()}
@@ -187,6 +202,7 @@ class Run:
         cov["violation_signatures"] = reported
         if self.notes:
             cov["notes"] = self.notes
+        cov["tree_under_test"] = tree_under_test()
         ev = {"property_id": self.prop, "tier": self.tier, "seed": seed(), "level": level,
               "coverage": jsonable(cov), "assumptions": assumptions or [],
               "wall_s": round(time.time() - self.t0, 2), "violations": len(reported)}
